@@ -197,14 +197,15 @@ def r_selectdefault(d, x):
 
 
 def r_priority(d, x):
-    # "inc_priority: If True, the lowest index has the highest priority. If False, the
-    #  highest index has the highest priority."  One output per input; the output of the
-    # winning input is 1, all others 0.  No active input: not documented (skipped).
+    # "inc_priority: If True, priority increases with the index (the highest index has the
+    #  highest priority). If False, the lowest index has the highest priority."  One output per
+    # input; the output of the winning input is 1, all others 0.  No active input: not
+    # documented (skipped).  (The docstring had the two directions swapped until fix 068981b.)
     a = _lst(x, 'a', d['n'])
     act = [i for i, v in enumerate(a) if v]
     if not act:
         return None
-    win = min(act) if d['inc'] else max(act)
+    win = max(act) if d['inc'] else min(act)
     return {'r%d' % i: 1 if i == win else 0 for i in range(d['n'])}
 
 
